@@ -334,3 +334,21 @@ package boltz
 //@   modifies visited, symSeen, visitorState, any publicSymbolValidator.err, any ast.SymbolValidator.*
 //@   ensures[visits-query] visited[query]
 //@   lensures[reports] result == visitor.err
+
+// ---------------------------------------------------------------------------
+// Bolt cursor adapters (C14). Each adapter's view of the ast.SetCursor model (curSeq/curLen/curPos) is
+// defined from the bbolt cursor it wraps; the representation invariant ties the cached key to that position.
+// ---------------------------------------------------------------------------
+
+//@ view curSeq[*ForwardBoltCursor] = bcKeys[self.cursor]
+//@ view curLen[*ForwardBoltCursor] = bcLen[self.cursor]
+//@ view curPos[*ForwardBoltCursor] = bcPos[self.cursor]
+//@ typeinv ForwardBoltCursor: self.cursor != nil && 0 <= bcLen[self.cursor] && bcLen[self.cursor] < MaxInt64 && 0 <= bcPos[self.cursor] && bcPos[self.cursor] <= bcLen[self.cursor] && (self.key != nil) == (bcPos[self.cursor] < bcLen[self.cursor]) && (self.key != nil ==> str(self.key) == bcKeys[self.cursor][bcPos[self.cursor]])
+
+//@ func (SetCursor).IsValid
+//@   impl ForwardBoltCursor
+//@ func NewForwardBoltCursor
+//@   props C14
+//@   requires cursor != nil && 0 <= bcLen[cursor] && bcLen[cursor] < MaxInt64
+//@   modifies bcPos[cursor]
+//@   ensures[first] result != nil && curPos[result] == 0
